@@ -32,6 +32,13 @@ RANK = {n: i for i, n in enumerate(SEVS)}
 DOC_DANGEROUS = ["os", "posix", "nt", "subprocess", "sys", "socket", "shutil", "urllib", "torch.hub", "dill", "code"]
 DOC_BAD_CALLS = ["eval", "exec", "compile", "open"]
 A = "fickling.analysis"
+BUILTIN_EXCLUSIONS = {
+    "not hasattr(builtins, node.func.id)",
+    "node.func.id not in dir(builtins)",
+    "node.func.id not in BUILTIN_NAMES",
+    "node.func.id not in builtins.__dict__",
+    "not is_builtin_name(node.func.id)",
+}
 
 
 def sev_of(call: ast.Call) -> Optional[str]:
@@ -184,6 +191,7 @@ def check_table(repo: Repo, rep: Report):
     # ---- OvertlyBadEvals fall-through and exemption
     gg = CFG(obe_f.node)
     conts = gg.stmt_nodes(ast.Continue)
+    excl_builtins = False
     for cn in conts:
         doms = [gg.nodes[d] for d in gg.dominators()[cn.id] if gg.nodes[d].kind == "branch"]
         okc = False
@@ -193,12 +201,41 @@ def check_table(repo: Repo, rep: Report):
             txt = [src(p) for p in parts]
             core = [p for p in txt if "likely_safe_imports" in p]
             rest = [p for p in txt if "likely_safe_imports" not in p]
-            if b.value is True and core == ["node.func.id in context.pickled.properties.likely_safe_imports"] and all(r in ("hasattr(node.func, 'id')", "isinstance(node.func, ast.Name)") for r in rest):
+            narrowing = [r for r in rest if r in BUILTIN_EXCLUSIONS]
+            if b.value is True and core == ["node.func.id in context.pickled.properties.likely_safe_imports"] and all(r in ("hasattr(node.func, 'id')", "isinstance(node.func, ast.Name)") or r in BUILTIN_EXCLUSIONS for r in rest):
                 okc = True
+                excl_builtins = excl_builtins or bool(narrowing)
         if okc:
             rep.ok("C04.table", obe_f.qualname, "only exemption: callee name imported from the standard library (likely_safe_imports)", f"{file}:{cn.line}")
         else:
             rep.bad("C04.table", obe_f.qualname, "exemption-broadened", f"OvertlyBadEvals skips a call under a condition other than `node.func.id in likely_safe_imports`: {[src(b.ast) for b in doms]}", file, cn.line)
+    # The exemption is keyed on the bare callee name. Globals from the builtins aliases are decompiled without
+    # an import statement and as a bare Name(attr) (E5 summaries), so a benign standard-library import of the same
+    # name (e.g. importlib.__import__, codecs.open) would exempt a later call of the *builtin*: the exemption must
+    # exclude names that are builtins, or the decompiler must make builtins distinguishable.
+    sums = {s.name: s for s in all_summaries(repo)}
+    bare = False
+    for opn in ("GLOBAL", "STACK_GLOBAL"):
+        sm = sums.get(opn)
+        if sm is None:
+            continue
+        for pth in sm.normal:
+            has_import = any(isinstance(v, Fresh) and v.cls == "ast.ImportFrom" for v, _ in pth.state.sinks)
+            top = pth.state.local_stack[-1] if pth.state.local_stack else None
+            if not has_import and isinstance(top, Fresh) and top.cls == "ast.Name":
+                bare = True
+    if conts:
+        if bare and not excl_builtins:
+            rep.bad(
+                "C04.table",
+                obe_f.qualname,
+                "exemption-shadows-builtin",
+                "the likely-safe exemption tests only the bare callee name, and builtins are decompiled as bare names without an import: resolving (and discarding) a standard-library global with the same name as a builtin - importlib.__import__, codecs.open, ... - exempts the later call of the builtin, e.g. `cimportlib\\n__import__\\n0` in front of `__import__('os')`+BUILD lowers the verdict from LIKELY_UNSAFE to LIKELY_SAFE",
+                file,
+                conts[0].line,
+            )
+        else:
+            rep.ok("C04.table", obe_f.qualname, "the bare-name exemption cannot be satisfied by a name that is also a builtin" if bare else "builtins are distinguishable from imported names in the decompiled program", f"{file}:{conts[0].line}")
     lows = [(y, c) for y, c in yields_in(obe_f) if sev_of(c) != "OVERTLY_MALICIOUS"]
     if lows and all(RANK[sev_of(c) or "LIKELY_SAFE"] >= RANK["LIKELY_UNSAFE"] for _, c in lows):
         rep.ok("C04.table", obe_f.qualname, f"every other call -> {sorted({sev_of(c) for _, c in lows})}", f"{file}:{lows[0][1].lineno}")
